@@ -145,6 +145,10 @@ static long vs_nsteps;
 static long vs_step_cap = 20000;
 static int vs_debug;
 static int vs_anomalies; /* unlock of a mutex not owned etc. */
+/* scenario hook, called whenever all threads are blocked and the virtual clock is about to jump to the next deadline;
+ * the argument says how often the clock has jumped so far while some thread was runnable */
+static void (*vs_idle_hook)(long unforced_fires);
+static long vs_unforced_fires;
 
 /* ---- schedule source */
 enum { VSRC_DEFAULT, VSRC_RAND, VSRC_PCT, VSRC_FIXED };
@@ -527,6 +531,14 @@ static void vs_schedule(void) {
         int c = vs_pick(mask, cur);
         if (c == VS_TIMER_ID) {
             uint64_t before = vs_clock;
+            if (!(mask & ~(1ull << VS_TIMER_ID))) {
+                /* quiescent: every thread is blocked, time has to pass before anything can happen */
+                if (vs_idle_hook) {
+                    vs_idle_hook(vs_unforced_fires);
+                }
+            } else {
+                vs_unforced_fires++; /* the clock jumps although a thread could run: an unfair (but possible) schedule */
+            }
             if (dl > vs_clock) {
                 vs_clock = dl;
             }
